@@ -506,11 +506,31 @@ def run_tool(sb, limit=120):
     config = Config(Path(sb.config_path))
     config.create_working_directories()
     apt = am.APTMirror(config)
-    with fast_sleep():
-        try:
-            return run_async(apt.run(), limit)
-        except SystemExit as ex:
-            return ex.code if isinstance(ex.code, int) else 1
+    # every repository of a run opens a kernel AIO context that lives as long as the event loop: with one loop for the whole
+    # check (see run_async) they would add up to the system-wide limit (fs.aio-max-nr) in a thorough run - they are closed here
+    made = []
+    factory = getattr(am, "AsyncIOFileFactory", None)
+    orig = getattr(factory, "_get_supported_context", None)
+    if orig is not None:
+        def recording(self, *a, **kw):
+            ctx = orig(self, *a, **kw)
+            made.append(ctx)
+            return ctx
+        factory._get_supported_context = recording
+    try:
+        with fast_sleep():
+            try:
+                return run_async(apt.run(), limit)
+            except SystemExit as ex:
+                return ex.code if isinstance(ex.code, int) else 1
+    finally:
+        if orig is not None:
+            factory._get_supported_context = orig
+        for ctx in made:
+            try:
+                ctx.close()
+            except Exception:  # noqa: BLE001
+                pass
 
 
 def gen_settings_case(rng, thorough_idx=None):
